@@ -261,15 +261,39 @@ def run_row(scratch, row, items, jobs, timeout_s, results, lock):
         cmd[2:2] = ["--manifest-path", os.path.join(scratch.repo, "Cargo.toml")]
         t0 = time.time()
         rc, out, secs = sh(cmd, cwd=wd, timeout=per * max(1, (len(hs) + jobs - 1) // jobs) + 600)
-        log("  kani row=%s harnesses=%d jobs=%d wall=%.0fs" % (row, len(hs), jobs, secs))
-        with open(os.path.join(wd, "driver.log"), "w") as fh:
-            fh.write(" ".join(cmd) + "\n" + out)
+        # Graceful degradation: a contract file that no longer compiles against this tree (it
+        # names a private item that was renamed or removed) must not take the whole row down:
+        # blank such files (their obligations become undecided) and run the rest once more.
+        disabled = {}
+        for attempt in range(2):
+            if not (("error: could not compile" in out) or ("error[E" in out and "Finished" not in out)):
+                break
+            bad = sorted(set(re.findall(r"--> (%s/src/\S*verif_kani\.rs):\d+" % CRATE, out)))
+            bad = [b for b in bad if b not in disabled]
+            if not bad:
+                break
+            for b in bad:
+                disabled[b] = first_error(out)
+                with open(os.path.join(scratch.repo, b), "w") as fh:
+                    fh.write("// disabled by the runner: this contract file did not compile against the current tree\n")
+            keep = [o for o in obs if o["file"] not in disabled]
+            if not keep:
+                break
+            hs = [o["harness"] for o in keep]
+            cmd = kani_cmd(row, hs, jobs, per, cb or None, target_dir=tdir)
+            cmd[2:2] = ["--manifest-path", os.path.join(scratch.repo, "Cargo.toml")]
+            rc, out, secs2 = sh(cmd, cwd=wd, timeout=per * max(1, (len(hs) + jobs - 1) // jobs) + 600)
+            secs += secs2
         compile_failed = ("error: could not compile" in out) or ("error[E" in out and "Finished" not in out)
         missing = re.search(r"Failed to match the following harness", out)
         for o in obs:
             key = (o["id"], row)
             f = os.path.join(tdir, "result_output_dir", o["harness"])
-            if os.path.exists(f):
+            if o["file"] in disabled:
+                r = {"verdict": "undecided", "checks": 0, "failed": [], "ignored": [], "seconds": None,
+                     "covers": None, "undecided_checks": [],
+                     "reason": "lost anchor: the contract file %s no longer compiles against this tree (a private item it names was renamed or removed?): %s" % (o["file"], disabled[o["file"]])}
+            elif os.path.exists(f):
                 with open(f) as fh:
                     txt = fh.read()
                 r = parse_harness_output(txt, o.get("allow"))
